@@ -23,7 +23,8 @@ TPTP_EXTRA = [
     "p(X) <- q(X) <- r", "(p(X) -> q(X)) -> r", "p(X) -> (q(X) -> r)", "p(X) and q(X) or r", "p(X) and (q(X) or r)", "not p(X) and q(X)", "not (p(X) and q(X))",
     "forall X (p(X)) and q(X)", "forall X (p(X) and q(X))", "p(X) <-> q(X) <-> r", "exists X (forall Y (t(X, Y)) or exists Z (t(Z, X)))", "#true -> #false",
     "not #true", "X = X", "1 = 1", "a = a", "a != b", "1 < a", "a < #sup", "#inf < 1", "1 + 1 = 2", "2 * 3 != 6", "forall X$i Y$i (X$i * Y$i = Y$i * X$i)",
-    "p(-(-3))", "X$i = -(-1)", "-(-2) < N$i", "-(-(-2))  = N$i", "N$i * -(-3) > -(3)", "p(-(0))", "-n < 0", "-(-n) = n", "p(-n)", "forall N$i (-N$i = n -> p(-(-n)))",
+    "N$i = a", "N$i != S$s", "n = s", "1 = a", "a != 1", "S$s = 1 or N$i = b", "forall N$i (p(N$i) -> N$i != a)", "X = N$i = S$s", "7 >= 5 >= 6", "X > Y > Z",
+    "X$i >= 1 >= N$i > -1", "a > X >= b", "3 > 2 > 1", "1 > 2 > 0", "p(-(-3))", "X$i = -(-1)", "-(-2) < N$i", "-(-(-2))  = N$i", "N$i * -(-3) > -(3)", "p(-(0))", "-n < 0", "-(-n) = n", "p(-n)", "forall N$i (-N$i = n -> p(-(-n)))",
     "s = n", "forall X (X = s -> p(X))", "1 <= n <= 2", "not 1 <= n <= c", "1 < 2 < 3 -> r", "r -> 1 < 2 < 3", "r <- X < Y < Z", "not X = Y", "not X$i = 1",
 ]
 
@@ -260,7 +261,17 @@ RENAME_PAIRS = [("a", "a0"), ("a", "a_1"), ("ha", "ha_1"), ("a", "a__"), ("b", "
 
 
 def rename_cases():
-    out = []
+    out = [
+        # extreme elements; a placeholder of sort symbol next to symbolic constants; private predicates whose definition names could collide
+        {"id": "xt0", "task": "strong", "left": "p(X) :- q(X), X < #sup.", "right": "p(X) :- q(X)."},
+        {"id": "xt1", "task": "external", "left": "p(X) :- q(X), X > #inf.", "right": "p(X) :- q(X), X != #inf.", "ug": "input: q/1. output: p/1."},
+        {"id": "xt2", "task": "external", "left": "p(X) :- q(X), X != c, X != a.", "right": "p(X) :- q(X), X != a, X != c.", "ug": "input: q/1. output: p/1. input: c -> symbol."},
+        {"id": "xt3", "task": "external", "left": "p(X) :- q(X), X = c, b != c.", "right": "p(c) :- q(c), c != b.", "ug": "input: q/1. output: p/1. input: c -> symbol. input: d -> symbol."},
+        {"id": "xt4", "task": "external", "left": "p(X) :- q(X), r(X), r_1(X). r(X) :- q(X), X > 0. r_1(X) :- q(X), X < 5.",
+         "right": "p(X) :- q(X), r_1(X), r(X). r(X) :- q(X), X > 0. r_1(X) :- q(X), X < 5.", "ug": "input: q/1. output: p/1."},
+        {"id": "xt5", "task": "external", "spec": "spec[predicate_0]: forall X (p(X) <-> q(X)). spec[symbol_order_0]: forall X (p(X) -> X != a). spec[f]: p(b) -> q(b). spec[f]: q(b) -> p(b). spec[f_1]: p(a) -> q(a).",
+         "right": "p(X) :- q(X), X != a.", "ug": "input: q/1. output: p/1."},
+    ]
     for i, (s, t) in enumerate(RENAME_PAIRS):
         out.append({"id": f"rn{i}s", "task": "strong", "left": f"{s} :- q({s}), not q({t}).", "right": f"{s} :- q({s}), not q({t}), not q(1)."})
         out.append({"id": f"rn{i}e", "task": "external", "left": f"p(X) :- q(X), not {s}, X != {t}. {s} :- q({s}).",
